@@ -4,13 +4,17 @@ set -u
 cd "$(dirname "$0")"
 export CARGO_NET_OFFLINE=true
 mkdir -p .build out evidence
+python3 lib/gen.py >/dev/null
 ( cd coq && coq_makefile -f _CoqProject -o Makefile >/dev/null 2>&1 && timeout 3000 make -j16 >/dev/null 2>.make.err ) || { echo "coq build failed"; tail -30 coq/.make.err; }
 python3 - <<'PY'
 import sys, os
 sys.path.insert(0, "lib")
 import core
-exe, err = core.model_build()
-print("model runner:", exe or err)
+import props
+for pid in sorted(props.PROPS):
+    exe, err = core.model_build(pid)
+    if exe is None:
+        print("model runner %s:" % pid, err)
 r = core.regen()
 print("regen:", r.get("status"))
 PY
